@@ -5,6 +5,8 @@ props=[json.loads(l) for l in open('/verif/properties.jsonl')]
 ENV="GOFLAGS=-mod=mod GOPROXY=off GOSUMDB=off GOTOOLCHAIN=local"
 SIM="the scripted in-memory connection, reference broker (independent MQTT 3.1.1 codec) and instrumented Persistence of /verif/harness/sim model network, broker and store faithfully; faults are realistic (see DESIGN.md section 3 conventions)"
 checks={
+ "C02":("fault_enumeration","runtime monitoring: crash-point enumeration over recorded (store, broker) snapshots, AdoptSession on each, byte-exact resend oracle, up to 3 generations, wrap positioning",
+        "Held on the stop points enumerated: at every recorded snapshot of the Persistence (after each Save/Delete, with the reference broker's state of the same instant) AdoptSession returned without warnings and the first connection resumed exactly the pending records, in order, at the right stage, with their identifiers; new publishes continued the sequence; all completed; exactly-once messages were forwarded once across generations. Stop points come from PRNG fault episodes, so the enumeration is complete per episode (within the per-episode cap), not over all histories.","3/C02"),
  "C01":("fault_enumeration","runtime monitoring: trace oracles over PRNG-scripted fault episodes (real client, simulated conn/broker/store), race detector on",
         "Held on the episodes run: every accepted publish was completely written, resent in full after each undisturbed reconnect while unacknowledged, its record removed and its exchange closed only after the final acknowledgement was delivered, and everything completed once faults stopped (bounded progress, wedges decided structurally). Faults are placed by a seeded PRNG at byte offsets, operations and acknowledgements; it is sampling of the fault space, not enumeration.","3/C01"),
  "C03":("fault_enumeration","runtime monitoring: reference-broker delivery log + wire/store trace oracles over fault episodes; full 16384-identifier window scenario",
